@@ -926,4 +926,9 @@ def Box3.closestPointOnBox {α : Type} [Sub α] [LT α] [DecidableLT α] (p : V3
                             else
                               ⟨p.x, p.y, b.max.z⟩
 
+/-- extracted from the C++ template at T = Sym; 1 path(s) -/
+def BoxAlgo.vecTimesM44 {α : Type} [Add α] [Mul α] [Div α] (v : V3 α) (m : M44 α) : (V3 α) :=
+  let t125 := ((((v.x * m.x03) + (v.y * m.x13)) + (v.z * m.x23)) + m.x33)
+  ⟨(((((v.x * m.x00) + (v.y * m.x10)) + (v.z * m.x20)) + m.x30) / t125), (((((v.x * m.x01) + (v.y * m.x11)) + (v.z * m.x21)) + m.x31) / t125), (((((v.x * m.x02) + (v.y * m.x12)) + (v.z * m.x22)) + m.x32) / t125)⟩
+
 end ImathVerif.Gen
